@@ -803,7 +803,10 @@ def run(run, tier, loadcfg):
     run.assumptions = ['usize arithmetic on indices does not overflow (first + index < 2^64)']
     cfgs = ['std-debug', 'std-release'] + (['nostd'] if tier == 'thorough' else [])
     for cfg in cfgs:
-        cx = Ctx(loadcfg(cfg))
+        fx_ = loadcfg(cfg, optional=(cfg == 'nostd'))
+        if fx_ is None:
+            continue
+        cx = Ctx(fx_)
         ns = ng = 0
         for adt in (B, F):
             a, b = check_type(run, cx, cfg, adt)
